@@ -8,6 +8,7 @@ import (
 	"github.com/platinummonkey/go-concurrency-limits/core"
 	"github.com/platinummonkey/go-concurrency-limits/limit"
 	"github.com/platinummonkey/go-concurrency-limits/limit/functions"
+	"github.com/platinummonkey/go-concurrency-limits/measurements"
 )
 
 type pre struct {
@@ -363,6 +364,32 @@ func TestC06(t *testing.T) {
 		}
 		rep.Distinct("aimd-near-integer-products", fmt.Sprint(pairs))
 	}
+	// Vegas configured with another baseline measurement (an exponential average instead of the minimum): drops still lower the estimate,
+	// sustained drops at a constant RTT reach the floor
+	for _, init := range []int{10, 40, 200} {
+		v := limit.NewVegasLimitWithRegistry("v", init, measurements.NewExponentialAverageMeasurement(100, 10), 1000, 1.0, nil, nil, nil, nil, nil, 1<<20, nil, nil)
+		var hist [][]int64
+		prev, reached := v.EstimatedLimit(), false
+		for i := 0; i < 40*init+200; i++ {
+			hist = append(hist, []int64{int64(i) * 1000, 1_000_000, int64(prev) + 1, 1})
+			v.OnSample(int64(i)*1000, 1_000_000, prev+1, true)
+			rep.Evaluations++
+			e := v.EstimatedLimit()
+			if e > prev {
+				rep.Violate("vegas:drop-raises:custom-baseline", fmt.Sprintf("exponential-average baseline: a drop raised the estimate %d -> %d", prev, e), map[string]interface{}{"component": "vegas-custom-baseline", "initial": init, "samples": len(hist)})
+				break
+			}
+			prev = e
+			if e <= 1 {
+				reached = true
+				break
+			}
+		}
+		rep.Distinct("vegas-custom-baseline", fmt.Sprint(init, reached))
+		if !reached {
+			rep.Violate("vegas:floor-not-reached:custom-baseline", fmt.Sprintf("exponential-average baseline, initial %d: %d drops at a constant RTT left the estimate at %d", init, len(hist), prev), map[string]interface{}{"component": "vegas-custom-baseline", "initial": init, "samples": len(hist)})
+		}
+	}
 	// replay of known finding F5: Gradient constructed below its queue allowance
 	{
 		l, _ := NewLUT(LimitCfg{Kind: 2, P: []int64{2, 1, 1000, 1000, FBits(0.2), FBits(2.0)}})
@@ -430,6 +457,18 @@ func TestC07(t *testing.T) {
 			for i := 0; i < n && !l.Dead; i++ {
 				check(c.next(l, tr, st))
 			}
+			// start times as callers report them: increasing, all zero (what the default limiter passes), or decreasing (completions out of order)
+			startMode := r.Intn(3)
+			startOf := func() int64 {
+				switch startMode {
+				case 0:
+					return l.Now
+				case 1:
+					return 0
+				default:
+					return 4_000_000_000_000_000 - l.Now
+				}
+			}
 			// in a third of the cases the history ends in a collapse (a long run of drops): recovery must work from the floor too
 			if !l.Dead && r.Bool(33) {
 				rttc := l.NoLoad()
@@ -438,7 +477,7 @@ func TestC07(t *testing.T) {
 				}
 				for i := 0; i < 80 && !l.Dead; i++ {
 					l.Now += 1000
-					c.sample(l, tr, l.Now, rttc, p2(l), true)
+					c.sample(l, tr, startOf(), rttc, p2(l), true)
 				}
 			}
 			if l.Dead {
@@ -473,7 +512,7 @@ func TestC07(t *testing.T) {
 			reached := -1
 			for i := 0; i < bound && !l.Dead; i++ {
 				l.Now += 1000
-				p, o := c.sample(l, tr, l.Now, rtt, p2(l)+r.Range(0, 2), false)
+				p, o := c.sample(l, tr, startOf(), rtt, p2(l)+r.Range(0, 2), false)
 				check(p, o)
 				switch kind {
 				case 0:
@@ -640,6 +679,9 @@ func TestC16(t *testing.T) {
 				if kind == 2 && r.Bool(15) {
 					// built below the queue allowance, probing at once: the probe moves the estimate up (to the allowance) - a change like any other
 					fix = func(cfg *LimitCfg) { cfg.P[0], cfg.P[3] = r.Pick(1, 2, 3), r.Pick(1, 2, 3) }
+				} else if kind == 2 && r.Bool(10) {
+					// a ceiling below the queue allowance (outside C04's valid configurations, but what is notified must still be what is reported)
+					fix = func(cfg *LimitCfg) { cfg.P[0], cfg.P[1], cfg.P[2] = r.Pick(1, 2), 1, r.Pick(2, 3) }
 				}
 				l, c, st := newLimitCase(tr, rep, "C16", r, kind, wr, fix)
 				if l == nil {
